@@ -164,7 +164,7 @@ def strip_root(x, root_path):
     return x
 
 
-def run(tname, b, cc=None, enc=None, strict=True, keep_raw=False, source=None, root_path=None):
+def run(tname, b, cc=None, enc=None, strict=True, keep_raw=False, source=None, root_path=None, keep_root=False):
     """decode b as type tname; returns a Run.  kind is Done / an error kind / ESCAPE:<class> / GUARD"""
     ns = loader.load()
     t = ns.TYPES[tname] if isinstance(tname, str) else tname
@@ -205,7 +205,7 @@ def run(tname, b, cc=None, enc=None, strict=True, keep_raw=False, source=None, r
             except Exception as e2:  # noqa: BLE001
                 r.remaining = "ESCAPE:" + type(e2).__name__
     r.pulled = getattr(src, "pulled", None)
-    if root_path:
+    if root_path and not keep_root:
         r.events = [tuple(strip_root(x, root_path) if i in (1,) and e[0] == "E" else x for i, x in enumerate(e)) if e[0] == "E" else (e[0], e[1], tuple((k, strip_root(v, root_path)) for k, v in e[2])) for e in r.events]
         r.details = {k: strip_root(v, root_path) for k, v in r.details.items()}
     return r
